@@ -4,15 +4,11 @@
  "standin": "B-drivers",
  "bound": "6 (quick) / 8 (thorough) small projects without externals x 3 (quick) / 16 (thorough) category subsets: Example.run_inline vs Example.run_pytest vs raw pytest subprocess (changed files as text) and run_inline's reported categories vs the headers of a `--inline-snapshot=<F>,report` session",
  "input": {
-  "project": "a fix whose only textual effect is trailing whitespace",
-  "flags": [
-   "create",
-   "trim",
-   "update"
-  ],
+  "project": "interleaved categories",
+  "flags": [],
   "driver": "inline"
  },
- "detail": "C19: run_inline reported categories ['fix'] but the report session lists []\n============================= test session starts ==============================\nplatform linux -- Python 3.12.1, pytest-9.1.1, pluggy-1.6.0\nrootdir: /tmp/bsess-wf13m0v2/proj\nconfigfile: pyproject.toml\nplugins: rerunfailures-16.7, xdist-3.8.0, hypothesis-6.168.0, asyncio-1.4.0, timeout-2.4.0, inline-snapshot-0.22.3, mock-3.15.1, pytest_freezer-0.4.9, cov-7.1.0\nasyncio: mode=Mode.STRICT, debug=False, asyncio_default_fixture_loop_scope=None, asyncio_default_test_loop_scope=function\ncollected 1 item\n\ntest_something.py .E                                                     [100%]\n\n==================================== ERRORS ====================================\n__________________ ERROR at teardown of test_trailing_blanks ___________________\nsome snapshots in this test have incorrect values.\n==================================== PASSES ====================================\n------------ generated xml file: /tmp/bsess-out-tzckxb7k/junit.xml -------------\n=========================== short test summary info ============================\nPASSED test_something.py::test_trailing_blanks\nERROR test_something.py::test_trailing_blanks - Failed: some snapshots in thi...\n========================== 1 passed, 1 error in 3.36s =========================="
+ "detail": "C19: run_inline reported categories ['fix', 'update'] but the report session lists ['fix', 'trim', 'update']\n________________________________ test_alt_list _________________________________\n\n    def test_alt_list():\n>       assert [0, 2, 29] == snapshot([1, 1 + 1, 3])\nE       assert [0, 2, 29] == [1, 2, 3]\nE         \nE         At index 0 diff: 0 != 1\nE         Use -v to get more diff\n\ntest_something.py:5: AssertionError\n________________________________ test_alt_dict _________________________________\n\n    def test_alt_dict():\n        s = snapshot({\"a\": 1, \"b\": 0, \"c\": 3})\n>       assert s[\"b\"] == 29\nE       assert 0 == 29\n\ntest_something.py:10: AssertionError\n------------ generated xml file: /tmp/bsess-out-vadr_pw2/junit.xml -------------\n=========================== short test summary info ============================\nERROR test_something.py::test_alt_list - Failed: some snapshots in this test ...\nERROR test_something.py::test_alt_dict - Failed: some snapshots in this test ...\nFAILED test_something.py::test_alt_list - assert [0, 2, 29] == [1, 2, 3]\nFAILED test_something.py::test_alt_dict - assert 0 == 29\n========================= 2 failed, 2 errors in 2.07s =========================="
 }
 """
 
@@ -85,8 +81,8 @@ ROOT = tempfile.mkdtemp()
 PROJ = os.path.join(ROOT, "proj")
 os.mkdir(PROJ)
 try:
-    FILES = {'test_something.py': 'from inline_snapshot import snapshot\n\n\ndef test_trailing_blanks():\n    assert "first\\nsecond\\n" == snapshot("""\\\nfirst  \nsecond\n""")\n', 'pyproject.toml': '[tool.inline-snapshot]\n'}
-    FLAGS = ['--inline-snapshot=create,trim,update']
+    FILES = {'test_something.py': 'from inline_snapshot import snapshot\n\n\ndef test_alt_list():\n    assert [0, 2, 29] == snapshot([1, 1 + 1, 3])\n\n\ndef test_alt_dict():\n    s = snapshot({"a": 1, "b": 0, "c": 3})\n    assert s["b"] == 29\n', 'pyproject.toml': '[tool.inline-snapshot]\n'}
+    FLAGS = []
     write(PROJ, FILES)
     r = session(PROJ, FLAGS)
     raw = {k: v.decode() for k, v in r['after'].items() if FILES.get(k) != v.decode()}
@@ -106,7 +102,7 @@ try:
     assert cp.value == raw, 'run_pytest differs from raw session'
     assert ci.value == raw, 'run_inline differs from raw session'
     P2 = os.path.join(ROOT, 'p2'); os.mkdir(P2); write(P2, FILES)
-    rep = session(P2, ['--inline-snapshot=' + ','.join(['create', 'trim', 'update', 'report'])])
+    rep = session(P2, ['--inline-snapshot=' + ','.join(['report'])])
     listed = sorted(c for c, h in {'create': 'Create snapshots', 'fix': 'Fix snapshots', 'trim': 'Trim snapshots', 'update': 'Update snapshots'}.items() if h in rep['out'])
     assert cc.value == listed, (cc.value, listed)
 finally:
